@@ -30,6 +30,11 @@ DecForms(n) ==
   {<<"0">>, <<"1">>, mx, Pow2Digits(n), Over1Digits(n), Big80, <<"_">>, <<"_", "_">>,
    Zeros(2) \o mx, Zeros(70) \o mx, Zeros(3), Zeros(1) \o Pow2Digits(n), <<"0", "_", "0">>}
   \cup Unders(mx) \cup Unders(Pow2Digits(n))
+  \* same number of digits as 2^N but a larger leading digit (k 0..0, k 9..9), all nines, 2^N with a digit bumped
+  \cup {<<DChr(k)>> \o Zeros(Len(mx) - 1) : k \in (LastDigit(<<Head(mx)>>) + 1)..9}
+  \cup {<<DChr(k)>> \o Rep("9", Len(mx) - 1) : k \in LastDigit(<<Head(mx)>>)..9}
+  \cup {[mx EXCEPT ![i] = "9"] : i \in {j \in 1..Len(mx) : j % 5 = 2}}
+  \cup {[mx EXCEPT ![i] = "0"] : i \in {j \in 1..Len(mx) : j % 7 = 3}}
   \cup {Samples[i][2] : i \in {j \in 1..Len(Samples) : Samples[j][1] = n}}
   \cup {Samples[i][2] : i \in {j \in 1..Len(Samples) : Samples[j][1] = 2 * n}}      \* values of the next width: too big
 
